@@ -41,6 +41,28 @@ theorem second_open_refused (os : OsTryLock) (hos : OsSound os) (s : State) (h :
   · rename_i hok; have := hos _ _ hok; rw [hown] at this; cases this
   · rfl
 
+/-- **No stale lock**: in every reachable state (any opens, closes, process deaths, in any order), when no
+    handle is open on a path the next `open` of it SUCCEEDS — the exclusion never outlives the handle that
+    holds it: closing the handle or the death of its process gives the database back.  (For the OS that
+    grants a free lock, `osFlock`; the C10 exclusion theorems need only `OsSound`.) -/
+theorem open_succeeds_when_free (s : State) (h : Reach true osFlock s) (proc path : Nat)
+    (hw : writers s path = []) : (step true osFlock s (.open proc path)).2 = .ok s.nextId := by
+  have ht : s.lockTable path = none := by
+    cases ht : s.lockTable path with
+    | none => rfl
+    | some i =>
+      obtain ⟨hd, hm, _, hp⟩ := reach_noStale h path i ht
+      have : hd ∈ writers s path := by simp [writers, hm, hp]
+      rw [hw] at this; cases this
+  simp [step, osFlock, ht]
+
+/-- … and whenever an `open` is refused, a live handle of that path exists (the refusal is never spurious) -/
+theorem refused_only_if_open (s : State) (h : Reach true osFlock s) (proc path : Nat)
+    (hb : (step true osFlock s (.open proc path)).2 = .busy) : ∃ hd, hd ∈ writers s path := by
+  cases hw : writers s path with
+  | nil => rw [open_succeeds_when_free s h proc path hw] at hb; cases hb
+  | cons hd _ => exact ⟨hd, List.mem_cons_self⟩
+
 /-- **C10** for the code as it is. -/
 theorem C10 : C10_full := by
   intro os hos s h path
